@@ -36,7 +36,7 @@ from ..rules import node_calls, event_facts, check_take_and_clear, settle_sites
 from ..mutate import mutate, remove_stmts, replace_expr, replace_stmt, parse_stmt, parse_expr
 from ..model import AnalysisError
 from ..x_guardflow import ClassEffects, guard_facts, has, fold_cfg, UNKNOWN, expand_expr, resolve_at, reaching_value, missing_effect, edge_facts, as_aug
-from ..x_iostream import read_end_mode
+from ..x_iostream import read_end_mode, normalised
 
 TECHNIQUE = "must-pass-through on the CFG, finite-domain folding of the position predicate, exception-escape fixpoint, paired-update and take-and-clear lints"
 EXPLANATION = (
@@ -960,6 +960,7 @@ def run(ck):
     ck.rule("C11.buffer-limit", "_read_to_buffer refuses incoming data exactly when _read_buffer_size > max_buffer_size (guard folded over a grid)")
     ck.rule("C11.eof-closes", "_read_to_buffer closes the stream exactly on EOF (0) and reports 'no progress' only for None/0")
     ck.rule("C11.read-into-swap", "read_into: copy buffered bytes, delete the copied prefix, save the remainder, then swap buffers and describe the new buffer, all before reading")
+    normalised(ck)
     find_read_pos(ck)
     starters(ck)
     unsatisfiable(ck)
